@@ -52,3 +52,17 @@ Theorem C07_dead_implies_published_visible :
 Proof. exact DeadObs.dead_implies_published_visible. Qed.
 Print Assumptions C07_dead_implies_published_visible.
 
+
+(** L-tie: the drop path of the source (translated on every run into gen/LifeFns.v: [Drop for XIter] -> [BufRef::set_X_alive(false)] - fence,
+    the variant's liveness setter, fence, release if that call cleared the last flag - -> [BufRef::drop] - free the box iff this handle owns
+    one) is the Model's [drop_iter], for the Local and the Concurrent variant and every combination of flags: same flags afterwards, the
+    buffer released exactly when the last flag went on a heap (boxed) buffer, nothing touched after the release *)
+Require MRB.Model.LifeM MRB.gen.LifeFns MRB.Proofs.LifeTie.
+Theorem C07_drop_path_source :
+  LifeFns.life_clean = true /\
+  forall (V : bool) (k : Types.stage) (s : Seq.mstate), Seq.freed s = false ->
+  LifeTie.l_drop k V (LifeM.mkLE (Seq.heap s)) (LifeM.mkLS (Seq.flag s) (Seq.freed s) []) =
+  Some (tt, LifeM.mkLS (Seq.flag (fst (Seq.drop_iter k s))) (Seq.freed (fst (Seq.drop_iter k s)))
+                 ([LifeM.EFence; LifeM.ESet k false; LifeM.EFence] ++ (if Seq.freed (fst (Seq.drop_iter k s)) then [LifeM.EFree] else []))).
+Proof. split; [exact LifeTie.life_closed | exact LifeTie.tie_drop]. Qed.
+Print Assumptions C07_drop_path_source.
